@@ -31,6 +31,8 @@ struct TimerEnt {
 
 #[derive(Default)]
 pub struct ClockCore {
+  /// number of timers fired so far
+  pub fired: u64,
   now: Duration,
   timers: Vec<TimerEnt>,
   next_seq: u64,
@@ -101,6 +103,9 @@ pub fn install() {
 pub fn now() -> Duration {
   clock().lock().unwrap().now
 }
+pub fn total_firings() -> u64 {
+  clock().lock().unwrap().fired
+}
 pub fn requested() -> Vec<Duration> {
   clock().lock().unwrap().requested.clone()
 }
@@ -149,6 +154,7 @@ fn fire_until(t: Duration) -> Vec<Option<TaskId>> {
       s.fired = true;
       (s.waker.take(), s.owner)
     };
+    clk.lock().unwrap().fired += 1;
     if let Some(w) = w {
       w.wake();
     }
@@ -437,14 +443,18 @@ pub fn advance(dt: Duration, prompt: bool) {
 /// run + fire timers until neither tasks nor timers remain or `max_rounds`
 /// timer firings happened.  Returns true when quiescent (no pending timer).
 pub fn drain(max_rounds: usize) -> bool {
+  drain_count(max_rounds).0
+}
+/// like `drain`; also returns how many timer firings were needed
+pub fn drain_count(max_rounds: usize) -> (bool, usize) {
   run_until_stalled();
-  for _ in 0..max_rounds {
+  for i in 0..max_rounds {
     if !fire_next_timer() {
-      return true;
+      return (true, i);
     }
     run_until_stalled();
   }
-  next_due().is_none()
+  (next_due().is_none(), max_rounds)
 }
 
 /// one tick of virtual time = 1 ns (so that every unit-truncation of a small
